@@ -227,10 +227,12 @@ def parse_opts(lines):
         i += 1
     res = []
     for s in opts:
-        m = re.match(r'(rw|rwre)\s+"((?:[^"\\]|\\.)*)"\s*=>\s*"((?:[^"\\]|\\.)*)"\s*$', s, re.S)
+        m = re.match(r'(rw\??|rwre\??)\s+"((?:[^"\\]|\\.)*)"\s*=>\s*"((?:[^"\\]|\\.)*)"\s*$', s, re.S)
         if m:
-            un = lambda x: x.replace('\\"', '"').replace('\\\\', '\\') if m.group(1) == 'rw' else x.replace('\\"', '"')
-            res.append((m.group(1), un(m.group(2)), un(m.group(3)) if m.group(1) == 'rw' else m.group(3).replace('\\"', '"')))
+            kind = m.group(1)
+            lit = kind.startswith('rw') and not kind.startswith('rwre')
+            un = lambda x: x.replace('\\"', '"').replace('\\\\', '\\') if lit else x.replace('\\"', '"')
+            res.append((kind, un(m.group(2)), un(m.group(3)) if lit else m.group(3).replace('\\"', '"')))
             continue
         m = re.match(r'inv\s+(\d+)\s*<<<(.*)>>>\s*$', s, re.S)
         if m:
@@ -239,6 +241,10 @@ def parse_opts(lines):
         m = re.match(r'top\s*<<<(.*)>>>\s*$', s, re.S)
         if m:
             res.append(('top', m.group(1)))
+            continue
+        m = re.match(r'destructure\s*<<<(.*)>>>\s*$', s, re.S)
+        if m:
+            res.append(('destructure', m.group(1)))
             continue
         m = re.match(r'loopbody\s+(\d+)\s*<<<(.*)>>>\s*$', s, re.S)
         if m:
@@ -275,15 +281,19 @@ def transform_body(body, opts, log, lost):
         if n:
             log.append((tag, '%s (x%d)' % (desc, n)))
     for o in opts:
-        if o[0] == 'rw':
+        if o[0] in ('rw', 'rw?'):
             if o[1] not in body:
+                if o[0] == 'rw?':
+                    continue
                 raise LostAnchor('rewrite anchor not found: %r' % o[1][:60])
             n = body.count(o[1])
             body = body.replace(o[1], o[2])
             log.append(('T6', 'rewrite (x%d): %s  =>  %s' % (n, o[1], o[2])))
-        elif o[0] == 'rwre':
+        elif o[0] in ('rwre', 'rwre?'):
             body, n = re.subn(o[1], o[2], body)
             if not n:
+                if o[0] == 'rwre?':
+                    continue
                 raise LostAnchor('rewrite regex not found: %r' % o[1][:60])
             log.append(('T6', 'regex rewrite (x%d): %s  =>  %s' % (n, o[1], o[2])))
     # splices, performed right-to-left so positions stay valid.  A ghost anchor
@@ -309,6 +319,9 @@ def transform_body(body, opts, log, lost):
         elif o[0] == 'top':
             splices.append((body.index('{') + 1, '\n' + o[1].strip('\n') + '\n'))
             log.append(('T7', 'ghost text spliced at start of body'))
+        elif o[0] == 'destructure':
+            splices.append((body.index('{') + 1, '\n' + o[1].strip('\n') + '\n'))
+            log.append(('T5', 'tuple-pattern parameter moved into the body: ' + o[1].strip()))
         elif o[0] in ('before', 'after'):
             pos = body.find(o[1])
             if pos < 0:
@@ -368,6 +381,9 @@ def transform_item(text, derive, log):
                 t = t[:b + 1] + ', '.join(parts) + t[e:]
                 log.append(('T3', 'tuple struct fields made pub'))
     t = re.sub(r'^\s*pub\([^)]*\)\s+', 'pub ', t)
+    if re.match(r'\s*(struct|enum)\b', t):
+        t = 'pub ' + t.lstrip()
+        log.append(('T3', 'item made pub'))
     if derive:
         t = '#[derive(%s)]\n' % derive + t.lstrip()
     return t.strip() + '\n'
@@ -381,7 +397,7 @@ def template_sig_before(out_text, fn_name):
     m = ms[-1]
     rest = out_text[m.start(1):]
     # header ends at first contract keyword at line start or end of text
-    k = re.search(r'^\s*(requires|ensures|decreases|recommends|returns|no_unwind|opens_invariants)\b', rest, re.M)
+    k = re.search(r'(?:^|\s)(requires|ensures|decreases|recommends|returns|no_unwind|opens_invariants)\b', rest)
     hdr = rest[:k.start()] if k else rest
     return m.start(1), hdr
 
@@ -437,6 +453,19 @@ def expand(unit):
             out.append('// --- pasted item %s :: %s  [%s]' % (file, ' :: '.join(path), '; '.join(sorted(set(x[0] for x in log)))))
             out.append(txt.rstrip('\n'))
             unit.items.append({'source': file + ' :: ' + ' :: '.join(path), 'sha256': hashlib.sha256(it.text().encode()).hexdigest(), 'rewrites': ['%s %s' % x for x in log]})
+            i += 1
+            continue
+        if s.startswith('//@decl'):
+            spec = [p.strip() for p in s[len('//@decl'):].split('::')]
+            file, path = spec[0], spec[1:]
+            it = source(file).find(path)
+            sofar = '\n'.join(out)
+            pos, thdr = template_sig_before(sofar, it.name)
+            real_sig = rsrc.fn_signature_norm(rsrc.blank(it.header())).rstrip(';')
+            tpl_sig = rsrc.fn_signature_norm(rsrc.blank(thdr), True).rstrip(';')
+            if real_sig != tpl_sig:
+                raise LostAnchor('declaration changed for %s :: %s\n   real:     %s\n   template: %s' % (file, ' :: '.join(path), real_sig, tpl_sig))
+            unit.items.append({'source': file + ' :: ' + ' :: '.join(path), 'sha256': hashlib.sha256(it.text().encode()).hexdigest(), 'rewrites': ['T7 contract spliced onto a body-less declaration (signature checked)']})
             i += 1
             continue
         if s.startswith('//@body'):
@@ -648,6 +677,22 @@ def run_verus(path, extra=(), timeout=900):
     return {'cmd': ' '.join(cmd), 'rc': p.returncode, 'json': js, 'diags': diags, 'stderr': p.stderr, 'wall_s': wall}
 
 
+def _call_site(span, fname):
+    """resolve a span inside a std macro (panic!, unreachable!) to its call site in the generated file"""
+    s = span
+    seen = 0
+    while s is not None and os.path.basename(s.get('file_name', '')) != fname and seen < 10:
+        exp = s.get('expansion')
+        if not exp:
+            break
+        nxt = dict(exp.get('span') or {})
+        nxt['is_primary'] = span.get('is_primary')
+        nxt['label'] = span.get('label')
+        s = nxt
+        seen += 1
+    return s if s is not None and os.path.basename(s.get('file_name', '')) == fname else span
+
+
 def classify(unit, fns, res):
     """-> dict with per-fn status and list of failures"""
     js = res['json']
@@ -664,7 +709,7 @@ def classify(unit, fns, res):
         msg = d.get('message', '')
         if msg.startswith('aborting due to'):
             continue
-        spans = d.get('spans', [])
+        spans = [_call_site(s, os.path.basename(unit.out)) for s in d.get('spans', [])]
         prim = [s for s in spans if s.get('is_primary')] or spans
         line = prim[0]['line_start'] if prim else None
         is_verif = any(p in msg for p in VERIF_FAIL_PATTERNS)
@@ -678,14 +723,16 @@ def classify(unit, fns, res):
                 f = max(cands, key=lambda x: x.line_lo)
                 break
         clause_line = None
+        clause_end = None
         for s in spans:
             lab = (s.get('label') or '')
             if 'failed this postcondition' in lab or 'failed precondition' in lab or 'failed this' in lab:
                 clause_line = s['line_start']
+                clause_end = s.get('line_end', clause_line)
         if is_limit and not is_verif:
             tool_errors.append({'kind': 'rlimit', 'message': msg, 'line': line, 'fn': f.qual if f else None})
         elif is_verif and f is not None:
-            failures.append({'fn': f, 'message': msg, 'line': line, 'clause_line': clause_line,
+            failures.append({'fn': f, 'message': msg, 'line': line, 'clause_line': clause_line, 'clause_end': clause_end,
                              'rendered': d.get('rendered', '')})
         else:
             tool_errors.append({'kind': 'rustc-or-vir', 'message': msg, 'line': line, 'fn': f.qual if f else None,
